@@ -11,12 +11,13 @@ RULE = ("operation sequences (<=40 ops quick, <=300 thorough) over two lists (+c
         "front/back/adjacent/self; after every op both walks, Len, Slice/iterators, In/Ok/Value of all handles are compared. "
         "Non-trivial: >=6 ops with at least one rejected or handle-based op; distinct = distinct case lines.")
 TRUSTED = ["encoding/json on ints ([a,b,c] text) is modelled as string formatting"]
-ASSUMPTIONS = ["Extend(l, l) (a list extended with itself) never terminates in the implementation and is excluded",
+ASSUMPTIONS = ["Extend(l, l) (a list extended with itself) never terminates in the implementation: open finding dt.List.Extend:self, confirmed by its witness on every run; the generator does not emit that shape",
                "methods are not called on nil receivers (Go would panic); nil is used as an argument only",
                "next/prev are only requested from attached elements or roots (detached elements keep stale pointers)"]
 
 KEY_SWAP = "dt.Element.Swap:any"
 KEY_SRM_HEAD = "dt.Item.Remove:head-item"
+KEY_EXT_SELF = "dt.List.Extend:self"
 
 
 class Gen:
@@ -178,6 +179,7 @@ def known_witnesses():
     return {
         KEY_SWAP: ["(seq (newlist) (pb L0 1) (pb L0 2) (pb L0 3) (pb L0 4) (front L0) (back L0) (swap e0 e1))"],
         KEY_SRM_HEAD: ["(seq (newstack) (push S0 1) (push S0 2) (head S0) (srm i0) (siter S0))"],
+        KEY_EXT_SELF: ["(seq (newlist) (pb L0 1) (pb L0 2) (pb L0 3) (ext L0 L0))"],
     }
 
 
@@ -190,6 +192,8 @@ def predicate(line, obs, allow_known=False):
         if i >= len(outs):
             return f"no observation for op {i} {C.sx(op)}"
         o = outs[i]
+        if o.startswith("HANG"):
+            return f"op {i} {C.sx(op)} never returns (no result after 5 s; the loop of Extend pops from the list it appends to)"
         if o.startswith("PANIC"):
             return f"op {i} {C.sx(op)} panicked"
         if o.startswith("bad-op"):
@@ -298,6 +302,8 @@ def shrink(line, fails):
 
 
 def classify(line, obs, why):
+    if "never returns" in why and "(ext " in why:
+        return KEY_EXT_SELF
     if "(swap " in why:
         return KEY_SWAP
     if "(srm " in why:
